@@ -291,7 +291,7 @@ def run_batch(pid: str, tier: str, seed: int) -> int:
         if k is not None:
             known_hit.append((sig, k))
             continue
-        if len(reported) >= 6:
+        if len(reported) >= 14:
             reported.append({"signature": list(sig), "replay": None, "detail": v["detail"]})
             continue
         small, sruns = shrink(mod, v["scenario"], sig)
